@@ -160,7 +160,12 @@ pub fn run<C: Ciphersuite, L: Lab<C>>(lab: &mut L, p: &Params) {
     }
     let mut sigmas = vec![];
     for j in &helpers {
-        let incoming: Vec<Delta<C>> = helpers.iter().map(|i| all_deltas[i][j]).collect();
+        // (no indexing: a missing entry is a finding of the code under test, not a harness panic)
+        let incoming: Vec<Delta<C>> = helpers.iter().filter_map(|i| all_deltas.get(i).and_then(|m| m.get(j)).copied()).collect();
+        if !lab.check(incoming.len() == helpers.len(), "every helper sent a value to every helper") {
+            lab.leave();
+            return;
+        }
         sigmas.push(repair_share_part2::<C>(&incoming));
     }
     let r = repair_share_part3(&sigmas, target, &keys.1);
